@@ -12,9 +12,9 @@ import derivefam as D
 
 FN_NAMES = {501: "derive on a struct/union: compile verdict", 502: "repr(C) layout model vs compiler", 503: "bytemuck::offset_of! vs core::mem::offset_of!",
             504: "offset_of! through Deref must not compile", 511: "derive on an enum: compile verdict and discriminants", 513: "derived Contiguous MIN_VALUE / MAX_VALUE", 514: "derived is_valid_bit_pattern of a fieldless enum",
-            512: "derived CheckedBitPattern: Bits layout and validity", 521: "ByteEq / ByteHash on a pair of values", 522: "ByteHash::hash_slice", 523: "ByteEq equivalence laws over a value pool"}
-PROPS = {"C05": {501, 502}, "C19": {502, 503, 504}, "C06": {511, 513, 514}, "C08": {512}, "C18": {521, 522, 523}, "C17": {511, 513}}
-SETS = {"C05": "struct", "C19": "struct", "C06": "enum", "C08": "checked", "C18": "bytes", "C17": "enum"}
+            512: "derived CheckedBitPattern: Bits layout and validity", 521: "ByteEq / ByteHash on a pair of values", 522: "ByteHash::hash_slice", 523: "ByteEq equivalence laws over a value pool", 531: "TransparentWrapperAlloc container method on a wrapper (unsized inners included): compiles and round-trips"}
+PROPS = {"C05": {501, 502}, "C19": {502, 503, 504}, "C06": {511, 513, 514}, "C08": {512, 514}, "C18": {521, 522, 523}, "C17": {511, 513}, "C13": {531}}
+SETS = {"C05": "struct", "C19": "struct", "C06": "enum", "C08": ("checked", "enum"), "C18": "bytes", "C17": "enum", "C13": "api"}
 
 
 def run_set(which, tier, seed, cdir):
